@@ -26,7 +26,8 @@ ClassForms == {"plain", "nested", "property", "property-setter", "overload", "ov
 Reexports == {"name", "alias", "star", "module", "modalias", "absolute-name", "all-list", "type-checking-import"}
 Foreign == {"one-segment", "two-segment", "three-segment", "generic", "as-superclass", "typing-special"}
 ModuleCode == {"member-func-call", "member-class-use", "member-const", "type-alias", "typevar-expr", "local-import", "try-import", "conditional-def", "main-guard"}
-Docs == {"PLAINTEXT", "GOOGLE", "NUMPYDOC", "REST", "malformed-numpy", "malformed-google", "malformed-rest", "unicode", "raw-backslash"}
+Docs == {"PLAINTEXT", "GOOGLE", "NUMPYDOC", "REST", "malformed-numpy", "malformed-google", "malformed-rest", "unicode", "raw-backslash",
+         "odd-types-numpy", "odd-types-google", "odd-types-rest"}        \* docstring type expressions that are not plain names
 
 Features ==
   { <<"param", k>> : k \in ParamKinds } \cup { <<"return", k>> : k \in ReturnExprs } \cup { <<"init", k>> : k \in Initializers }
